@@ -319,7 +319,8 @@ static OptC genOpt(int nvar)
   o.goulard = nvar > 1 ? !G::pct(3) : !G::pct(25);
   o.intrinsic = 0; // known finding C17-intrinsic-crash: flag_intrinsic dereferences an unallocated array (replay file only)
   o.wmode = G::pick({2, 2, 0, 1, 3});
-  o.maxiter = G::pick({1000, 1000, 1000, 100, 20, 3});
+  // the default (1000) costs minutes under ASan when the search zig-zags: kept rare
+  o.maxiter = G::pct(3) ? 1000 : G::pick({200, 100, 100, 50, 20, 3});
   o.tolsigma = G::pick({5., 5., 5., 0., 20.});
   return o;
 }
@@ -443,6 +444,11 @@ static FitCase genFitCommon(bool sillsOnly)
   }
   if (c.types.empty()) c.types.push_back(2);
   if (c.constSill > 0) c.opt.goulard = 1;
+  // known finding C17-constant-sill-multivar: the constrained Goulard start (model_auto.cpp:3243) yields NaN sills, and a
+  // NaN parameter handed to MATERN ends in a sanitizer abort (replay file only); other types fail with a key
+  if (c.constSill > 0 && c.nvar > 1)
+    for (auto& t : c.types)
+      if (t == 7) t = 1;
   double vref = 0;
   for (auto& s : c.truth) vref += s.a[0] * s.a[0];
   if (!sillsOnly && c.constSill <= 0) genCons(c, vref);
@@ -459,10 +465,19 @@ static FitCase genSills()
 }
 
 // ------------------------------------------------------------------ world ---------------
+// triage aid (replay only): C17_VERBOSE=1 lets the library's messages through and asks for the verbose fit
+static void libPrint(const char* s) { ssize_t w = write(diagFd(), s, strlen(s)); (void)w; }
+static bool verboseMode()
+{
+  static int v = -1;
+  if (v < 0) v = getenv("C17_VERBOSE") != nullptr ? 1 : 0;
+  return v == 1;
+}
 static void resetGlobals(int ndim)
 {
   defineDefaultSpace(ESpaceType::RN, (unsigned)ndim);
   OptDbg::reset();
+  if (verboseMode()) { redefine_message(libPrint); redefine_error(libPrint); OptDbg::define(EDbg::CONVERGE); }
   law_set_random_seed(132421);
   ASerializable::unsetContainerName();
   ASerializable::unsetPrefixName();
@@ -645,8 +660,9 @@ static std::vector<double> jacobiEig(int n, std::vector<long double> a)
 }
 
 // sills of every structure: finite, symmetric, positive semi-definite. Returns false after ctx.fail
-static bool checkSills(const Model& m, const std::string& site, Ctx& ctx)
+static bool checkSills(const Model& m, const std::string& site0, Ctx& ctx, bool constSill)
 {
+  std::string site = site0 + (constSill ? ":constant-sill" : "");
   int nvar = m.getVariableNumber();
   for (int ic = 0; ic < m.getCovaNumber(); ic++)
   {
@@ -1157,7 +1173,7 @@ static void validate(const FitCase& c, Model& m, const std::string& site, Ctx& c
     return;
   }
   if (m.getCovaNumber() < (int)c.types.size()) ctx.label("fit:structures-discarded");
-  if (!checkSills(m, site, ctx)) return;
+  if (!checkSills(m, site, ctx, c.constSill > 0)) return;
   if (!checkRanges(m, site, ctx)) return;
   if (withConstraints && !checkConstraints(c, m, map, site, ctx)) return;
   if (withConstraints && !checkOptions(c, m, site, ctx)) return;
@@ -1195,7 +1211,7 @@ static void runFit(const FitCase& c, Ctx& ctx)
   Option_AutoFit ma = buildMauto(c.opt);
   ctx.at("Model::fit");
   int err = 0;
-  try { err = m->fit(v.get(), types, cs, ov, ma, false); }
+  try { err = m->fit(v.get(), types, cs, ov, ma, verboseMode()); }
   catch (const LibExit&) { throw; }
   catch (const std::exception& e) { ctx.fail("fit:exception:" + excKey(e), std::string("Model::fit let an exception escape: ") + e.what()); return; }
   ctx.sig = sigFit(c);
@@ -1372,7 +1388,7 @@ static void runVMap(const VMapCase& c, Ctx& ctx)
   Option_AutoFit ma = buildMauto(c.opt);
   ctx.at("Model::fitFromVMap");
   int err = 0;
-  try { err = m->fitFromVMap(vmap.get(), types, cs, ov, ma, false); }
+  try { err = m->fitFromVMap(vmap.get(), types, cs, ov, ma, verboseMode()); }
   catch (const LibExit&) { throw; }
   catch (const std::exception& e) { ctx.fail("vmap:exception:" + excKey(e), std::string("Model::fitFromVMap let an exception escape: ") + e.what()); return; }
   Hash h;
